@@ -1,0 +1,158 @@
+//go:build verif
+
+// Verification shim for property C11 (host selection policies). Add-only, compiled only with
+// -tags verif. Thin exported wrappers around unexported fields so that the external harness
+// (/verif/harness/cmd/c11) can build HostInfo values, inject keyspace metadata into a token-aware
+// policy, build a query that carries a routing key, and read back the state a Pick works from.
+package gocql
+
+import (
+	"errors"
+	"math/rand"
+	"net"
+	"sync/atomic"
+)
+
+// VerifC11Host builds a HostInfo with the given identity, topology, tokens and state.
+func VerifC11Host(hostID string, addr net.IP, dc, rack string, tokens []string, up bool) *HostInfo {
+	st := NodeDown
+	if up {
+		st = NodeUp
+	}
+	return &HostInfo{hostId: hostID, connectAddress: addr, port: 9042, dataCenter: dc, rack: rack, tokens: tokens, state: st}
+}
+
+// VerifC11SetUp sets the up/down state field of a host (what HostInfo.IsUp reads).
+func VerifC11SetUp(h *HostInfo, up bool) {
+	if up {
+		h.setState(NodeUp)
+	} else {
+		h.setState(NodeDown)
+	}
+}
+
+// VerifC11Query returns an ExecutableQuery for Pick. mode 0: routing key = key (may be empty but
+// not nil); mode 1: GetRoutingKey returns (nil, nil) (a bound query without values).
+func VerifC11Query(keyspace string, key []byte, mode int) ExecutableQuery {
+	q := &Query{routingInfo: &queryRoutingInfo{}}
+	q.getKeyspace = func() string { return keyspace }
+	if mode == 0 {
+		if key == nil {
+			key = []byte{}
+		}
+		q.RoutingKey(key)
+	} else {
+		q.binding = func(*QueryInfo) ([]interface{}, error) { return nil, nil }
+	}
+	return q
+}
+
+// VerifC11InitTokenAware installs the keyspace callbacks a Session would install in Init.
+// strategy "" means the keyspace metadata lookup fails (no replica map for the keyspace).
+func VerifC11InitTokenAware(p HostSelectionPolicy, keyspace, strategy string, opts map[string]interface{}) bool {
+	t, ok := p.(*tokenAwareHostPolicy)
+	if !ok {
+		return false
+	}
+	t.mu.Lock()
+	defer t.mu.Unlock()
+	t.getKeyspaceName = func() string { return keyspace }
+	t.getKeyspaceMetadata = func(ks string) (*KeyspaceMetadata, error) {
+		if ks != keyspace || strategy == "" {
+			return nil, errors.New("verif: unknown keyspace")
+		}
+		o := make(map[string]interface{}, len(opts)+1)
+		for k, v := range opts {
+			o[k] = v
+		}
+		o["class"] = strategy
+		return &KeyspaceMetadata{Name: keyspace, StrategyClass: strategy, StrategyOptions: o}, nil
+	}
+	t.logger = nopLogger{}
+	return true
+}
+
+// VerifC11Lookup reports what the token-aware Pick works from for (keyspace, routing key):
+// haveRing = a token ring is installed; replicas/haveReplicas = the replica list of the token's
+// range in the keyspace's replica map (haveReplicas false when there is none); primary = the
+// owner of the token in the ring (nil when the ring has no tokens).
+func VerifC11Lookup(p HostSelectionPolicy, keyspace string, key []byte) (haveRing bool, replicas []*HostInfo, haveReplicas bool, primary *HostInfo) {
+	t, ok := p.(*tokenAwareHostPolicy)
+	if !ok {
+		return false, nil, false, nil
+	}
+	meta := t.getMetadataReadOnly()
+	if meta == nil || meta.tokenRing == nil {
+		return false, nil, false, nil
+	}
+	token := meta.tokenRing.partitioner.Hash(key)
+	if ht := meta.replicas[keyspace].replicasFor(token); ht != nil {
+		replicas = append([]*HostInfo(nil), ht.hosts...)
+		haveReplicas = true
+	}
+	primary, _ = meta.tokenRing.GetHostForToken(token)
+	return true, replicas, haveReplicas, primary
+}
+
+func verifC11Base(p HostSelectionPolicy) HostSelectionPolicy {
+	if t, ok := p.(*tokenAwareHostPolicy); ok {
+		return t.fallback
+	}
+	return p
+}
+
+// VerifC11Lists returns the current copy-on-write tier lists of a round-robin based policy
+// (or of the fallback of a token-aware policy), nearest tier first.
+func VerifC11Lists(p HostSelectionPolicy) [][]*HostInfo {
+	switch r := verifC11Base(p).(type) {
+	case *roundRobinHostPolicy:
+		return [][]*HostInfo{r.hosts.get()}
+	case *dcAwareRR:
+		return [][]*HostInfo{r.localHosts.get(), r.remoteHosts.get()}
+	case *rackAwareRR:
+		out := make([][]*HostInfo, len(r.hosts))
+		for i := range r.hosts {
+			out[i] = r.hosts[i].get()
+		}
+		return out
+	}
+	return nil
+}
+
+func verifC11Counter(p HostSelectionPolicy) *uint64 {
+	switch r := verifC11Base(p).(type) {
+	case *roundRobinHostPolicy:
+		return &r.lastUsedHostIdx
+	case *dcAwareRR:
+		return &r.lastUsedHostIdx
+	case *rackAwareRR:
+		return &r.lastUsedHostIdx
+	}
+	return nil
+}
+
+// VerifC11Counter reads the pick counter of a round-robin based policy (or fallback).
+func VerifC11Counter(p HostSelectionPolicy) uint64 {
+	if c := verifC11Counter(p); c != nil {
+		return atomic.LoadUint64(c)
+	}
+	return 0
+}
+
+// VerifC11SetCounter sets the pick counter (boundary tests of the rotation arithmetic).
+func VerifC11SetCounter(p HostSelectionPolicy, v uint64) {
+	if c := verifC11Counter(p); c != nil {
+		atomic.StoreUint64(c, v)
+	}
+}
+
+// VerifC11SeedShuffle reseeds the package-level generator used by shuffleHosts, so that the
+// permutation ShuffleReplicas applies in the next Pick can be reproduced with VerifC11Shuffle.
+func VerifC11SeedShuffle(seed int64) {
+	mutRandr.Lock()
+	randr = rand.New(rand.NewSource(seed))
+	mutRandr.Unlock()
+}
+
+// VerifC11Shuffle is shuffleHosts.
+func VerifC11Shuffle(hosts []*HostInfo) []*HostInfo { return shuffleHosts(hosts) }
